@@ -27,5 +27,8 @@ pub use util::restion;
 mod frame;
 mod util;
 
+#[cfg(feature = "verif")]
+pub mod verif;
+
 #[cfg(test)]
 mod tests;
